@@ -1330,6 +1330,27 @@ pub fn c03(rec: &RunRecord) -> Vec<Violation> {
 /// are never accepted.
 #[must_use]
 pub fn c02(rec: &RunRecord) -> Vec<Violation> {
+    let mut v = c02_inner(rec);
+    // Unprivileged Paris/Dublin (accepted by the builder, rejected by the command line): the
+    // sequence never reaches the wire, the field the tracer reads back holds whatever the
+    // kernel put there, so any match is accidental.  Those consequences of the one defect
+    // carry the cell in their signature (the known-findings file lists them per cell).
+    let t = &rec.sc.tracer;
+    if t.unprivileged && t.proto == Proto::Udp && t.strat != Strat::Classic {
+        let cell = cell_sig(rec);
+        for x in &mut v {
+            let accidental = ["c02.responder", "c02.invented", "c02.status", "c02.count", "c02.accepted"].iter().any(|p| x.sig.starts_with(p));
+            if accidental && !x.sig.contains(&cell) {
+                x.sig = format!("c02.accidental-match.{cell}.{}", &x.sig[4..]);
+            } else if accidental {
+                x.sig = format!("c02.accidental-match.{cell}.{}", x.sig[4..].replace(&format!(".{cell}"), ""));
+            }
+        }
+    }
+    v
+}
+
+fn c02_inner(rec: &RunRecord) -> Vec<Violation> {
     let attributed = attribute_acceptances(rec, "C02", "c02");
     if !attributed.is_empty() {
         return attributed;
